@@ -17,7 +17,7 @@ impl Prop for C14 {
         "C14"
     }
     fn rule(&self) -> String {
-        "an otherwise valid chain (2..6 blocks, canonical scripts, consistent merkle/prev so --verify can be on) in which 1..4 fields are replaced by hostile byte strings of length 0..100 KB: truncated pushes of every width, PUSHDATA4 with lengths 2^31/2^32-1, every leading opcode, OP_RETURN + invalid UTF-8, witness-program look-alikes with illegal lengths, thousands of 1-byte pushes, all-0xff/all-zero, nested fragments, random bytes; placed in scriptPubKey, scriptSig or witness items; x 8 coins x 5 callbacks x --verify on/off; program built with overflow checks and debug assertions. Oracle: exit 0, no panic, termination within the cap, and every row/figure not derived from the hostile field equals the reference (type/address/opreturn line of a hostile output itself are not judged). Non-trivial = at least one hostile field and exit observed; distinct by scenario hash.".into()
+        "an otherwise valid chain (2..6 blocks, canonical scripts, consistent merkle/prev so --verify can be on) in which 1..4 fields are replaced by hostile byte strings of length 0..100 KB: truncated pushes of every width, PUSHDATA4 with lengths 2^31/2^32-1, every leading opcode, OP_RETURN + invalid UTF-8, witness-program look-alikes with illegal lengths, thousands of 1-byte pushes, all-0xff/all-zero, nested fragments, random bytes; placed in scriptPubKey, scriptSig or witness items; x 8 coins x 5 callbacks x --verify on/off x verbosity (-v/-vv in a third of the runs: diagnostics format script content too); program built with overflow checks and debug assertions. Oracle: exit 0, no panic, termination within the cap, and every row/figure not derived from the hostile field equals the reference (type/address/opreturn line of a hostile output itself are not judged). Non-trivial = at least one hostile field and exit observed; distinct by scenario hash.".into()
     }
     fn items(&self, tier: Tier) -> u64 {
         if tier == Tier::Quick {
@@ -27,7 +27,7 @@ impl Prop for C14 {
         }
     }
     fn required_probes(&self, _tier: Tier) -> Vec<&'static str> {
-        vec!["hostile_script_pubkey", "hostile_script_sig", "hostile_witness_item", "hostile_len_ge_64k", "verify_on"]
+        vec!["hostile_script_pubkey", "hostile_script_sig", "hostile_witness_item", "hostile_len_ge_64k", "verify_on", "verbose_run"]
     }
     fn explore(&self, item: u64, rng: &mut Rng, _tier: Tier, h: &mut Harness) -> Result<(), String> {
         let coin = COINS[(item % 8) as usize];
@@ -88,6 +88,10 @@ impl Prop for C14 {
         if rng.chance(1, 3) {
             r.plan.chunk_blk = random_chunks(rng);
         }
+        // diagnostics are part of the run: debug/trace messages format script content too
+        if rng.chance(1, 3) {
+            r.verbosity = rng.range(1, 2) as u8;
+        }
         scn.runs = vec![r];
         h.check(&mut scn)?;
         Ok(())
@@ -123,6 +127,9 @@ impl Prop for C14 {
         }
         if r.verify {
             st.probe("verify_on");
+        }
+        if r.verbosity > 0 {
+            st.probe("verbose_run");
         }
         let err = o.stderr_str();
         if err.contains("panicked") {
